@@ -156,7 +156,7 @@ package ast
 //@   props C10
 //@   modifies bl.currentStack.values, bl.err
 //@   ensures[latch] old(bl.err) != nil ==> bl.err != nil
-//@   ensures[usable] bl.err == nil ==> result != nil && ref(result) != 0
+//@   ensures[usable] bl.err == nil ==> result != nil
 //@   ensures[top-node] old(bl.err) == nil && old(len(bl.currentStack.values)) > 0 && istype(old(bl.currentStack.values[len(bl.currentStack.values)-1]), Node) ==> bl.err == nil && result == old(bl.currentStack.values[len(bl.currentStack.values)-1]) && len(bl.currentStack.values) == old(len(bl.currentStack.values)) - 1
 //@   ensures[rest-kept] forall(i, 0 <= i && i < len(bl.currentStack.values) ==> bl.currentStack.values[i] == old(bl.currentStack.values[i]))
 //@ func (*ToBoltListener).popSymbolNode
